@@ -20,6 +20,9 @@ Val(cls, n) ==
     [] cls = "max"  -> U64MaxBits(n)
     [] cls = "over" -> IF n >= 64 THEN U64Max ELSE U64Pow2(n)
     [] cls = "b63"  -> U64Pow2(63)
+    [] cls = "p32"  -> IF n > 32 THEN U64Pow2(32) ELSE U64MaxBits(n)                 \* 2^32: the first value a 32-bit truncation loses
+    [] cls = "p32m" -> IF n >= 32 THEN <<65535, 65535, 0, 0>> ELSE U64MaxBits(n)     \* 2^32 - 1
+    [] cls = "alt"  -> IF n >= 64 THEN <<43690, 43690, 43690, 43690>> ELSE IF n >= 16 THEN <<43690, 0, 0, 0>> ELSE U64MaxBits(n)   \* 1010...
     [] cls = "umax" -> U64Max
 Prom(cls, v, n) ==
   CASE cls = "none" -> None
@@ -64,7 +67,7 @@ FamComplete ==
                 n \in AllN, t \in (IF Quick THEN {1, 2, 6} ELSE 1..6),
                 mc \in (IF Quick THEN {<<1,1>>, <<1,4>>, <<2,2>>, <<2,8>>, <<4,4>>, <<8,8>>, <<8,16>>} ELSE MCap(32, 32)) }
       S2 == { One(Member(n, 1, m, m, vb, vs, js, "none", ps, js, IF m = 1 THEN sd ELSE 0, 0, "chacha"), mode) :
-                n \in AllN, m \in {1, 2}, vb \in {"mid"}, vs \in {"zero", "one", "mid", "max"}, js \in {1, 2},
+                n \in AllN, m \in {1, 2}, vb \in {"mid"}, vs \in {"zero", "one", "mid", "max", "p32", "p32m", "alt"}, js \in {1, 2},
                 ps \in {"none", "zero", "lt", "eq"}, sd \in {0, 1}, mode \in Modes }
       S3 == { One(Member(n, t, 1, 1, "mid", "mid", 0, "lt", "lt", 0, sd, lb, rng), mode) :
                 n \in {2, 64}, t \in 1..6, sd \in {0, 1}, lb \in {0, 1, 2},
@@ -73,7 +76,10 @@ FamComplete ==
       S4 == { One([Member(n, t, m, m, "mid", vs, js, "none", ps, js, IF m = 1 THEN sd ELSE 0, 0, "chacha") EXCEPT !.zb = js], mode) :
                 n \in {1, 8, 64}, t \in {1, 3}, m \in {1, 4}, vs \in {"zero", "one"}, js \in {1, 4}, ps \in {"none", "zero"}, sd \in {0, 1},
                 mode \in {"VerifyOnly", "RecoverAndVerify"} }
-  IN S1 \cup S2 \cup S3 \cup {s \in S4 : s.members[1].zb <= s.members[1].m}
+      \* sizes beyond the everyday ones: many commitments, large capacities (bits*aggregation up to 4096)
+      S5 == { One(Plain(n, t, mc[1], mc[2], 0), "VerifyOnly") :
+                n \in {1, 4, 64}, t \in {1, 6}, mc \in {<<16, 16>>, <<16, 64>>, <<32, 32>>, <<64, 64>>, <<1, 64>>, <<2, 128>>} }
+  IN S1 \cup S2 \cup S3 \cup {s \in S4 : s.members[1].zb <= s.members[1].m} \cup S5
 
 (***************************************************************************************************)
 (* witness (C06): every single violation of the witness relation at every position                  *)
@@ -148,6 +154,7 @@ Kind(n, t, kd) ==
     [] kd = "v2"   -> Plain(n, t, 2, 2, 0)
     [] kd = "v1sL" -> LET mb == Plain(n, t, 1, 1, 1) IN [mb EXCEPT !.label = 1, !.v.label = 1]   \* seeded, made and verified in another context
     [] kd = "v1C"  -> LET mb == Plain(n, t, 1, 2, 1) IN [mb EXCEPT !.label = 2, !.v.label = 2]   \* seeded, context = label + caller state
+    [] kd = "dup"  -> [Plain(n, t, 1, 1, 0) EXCEPT !.bseed = 7]       \* every "dup" member is the same triple (same openings, same RNG stream)
     [] kd = "v4c8" -> Plain(n, t, 4, 8, 0)
     [] kd = "v1c16" -> Plain(n, t, 1, 16, 0)
     [] kd = "xs"   -> [Plain(n, t, 1, 1, 0) EXCEPT !.mut = [kind |-> "scalar", slot |-> "d1", j |-> t - 1, how |-> "plus1"]]
@@ -167,7 +174,7 @@ Kind(n, t, kd) ==
 ValidKinds == {"v1", "v1s", "v2", "v4c8"}
 BadKinds == {"xs", "xp", "xv", "xl", "xr", "xk"}
 DisKinds == {"dn", "dt", "dh", "dg", "dh8", "dg8", "vn", "vt"}
-Pattern(pt, x) == CASE pt = 1 -> "v1" [] pt = 2 -> (IF x % 2 = 1 THEN "v1s" ELSE "v2") [] pt = 3 -> (IF x % 3 = 0 THEN "v4c8" ELSE IF x % 3 = 1 THEN "v1s" ELSE "v1c16")
+Pattern(pt, x) == CASE pt = 1 -> (IF x % 4 = 0 \/ x = 1 THEN "dup" ELSE "v1") [] pt = 2 -> (IF x % 2 = 1 THEN "v1s" ELSE "v2") [] pt = 3 -> (IF x % 3 = 0 THEN "v4c8" ELSE IF x % 3 = 1 THEN "v1s" ELSE "v1c16")
 FamBatch ==
   LET MaxK == 3 * MaxBatch + 1
       NT == IF Quick THEN {<<4, 1>>} ELSE {<<4, 1>>, <<2, 2>>}
@@ -181,7 +188,11 @@ FamBatch ==
       Mem(l, nt) == [x \in 1..l.k |-> Kind(nt[1], nt[2], IF x = l.a THEN l.ka ELSE IF x = l.b THEN l.kb ELSE Pattern(l.pt, x))]
       Sk == IF Quick THEN {NoSkew, <<0, 1, 0>>, <<0, 0, -1>>, <<1, 0, 0>>} ELSE {s \in {-1, 0, 1} \X {-1, 0, 1} \X {-1, 0, 1} : s = NoSkew \/ ~(s[1] = s[2] /\ s[2] = s[3])}    \* uniform skews are just other batch sizes
       Plain3(nt, d, a) == [x \in 1..3 |-> Kind(nt[1], nt[2], IF x = a THEN d ELSE "v1")]
+      Dups(nt) == { <<Kind(nt[1], nt[2], "dup"), Kind(nt[1], nt[2], "dup")>>,
+                    <<Kind(nt[1], nt[2], "dup"), Kind(nt[1], nt[2], "v1s"), Kind(nt[1], nt[2], "dup")>>,
+                    <<Kind(nt[1], nt[2], "dup"), Kind(nt[1], nt[2], "xs"), Kind(nt[1], nt[2], "dup")>> }
   IN  { ScenF(Plain3(nt, d, a), "VerifyOnly", NoSkew, FALSE, <<Kind(nt[1], nt[2], "v1")>>) : nt \in NT, d \in DisKinds \cup BadKinds, a \in 1..3 }
+  \cup { ScenF(ms, mode, NoSkew, FALSE, <<Kind(nt[1], nt[2], "v1")>>) : nt \in NT, ms \in Dups(nt), mode \in {"VerifyOnly", "RecoverAndVerify"} }
   \cup { ScenF(Mem(l, nt), mode, NoSkew, FALSE, <<Kind(nt[1], nt[2], "v1")>>) : l \in {l \in Lay : Good(l)}, nt \in NT, mode \in {"VerifyOnly", "RecoverAndVerify"} }
   \cup { ScenF(Mem([k |-> k, pt |-> 2, a |-> 0, ka |-> "xs", b |-> 0, kb |-> "xs"], <<4, 1>>), "VerifyOnly", sk, FALSE, <<Kind(4, 1, "v1")>>) : k \in {1, 2, MaxBatch + 1}, sk \in Sk }
 
